@@ -259,7 +259,7 @@ EXTRA = {
     "C12": " Lattice units 2^-37 .. 2^20; P_History: the same quantities after the lists were fragmented, after an exact map p -> 2(p.y, p.z, p.x) of the nodes, and after compaction; the longest axis also on an unevenly sampled copy, at its place and moved to the origin; a 65538-node ellipsoid with mixed windings, naturally numbered and renumbered (BigGeomTrace). The longest axis also after a generic (non-lattice) rotation.",
     "C13": " Input sizes 4e-7 .. 4e3 including nucleus-sized inside-out inputs. Four-cell tissues triangulated in parallel at four threads with an impossible cell at every list position, and an all-good control (InitMultiTrace).",
     "C14": " The default contact model on every pair, contact models 0 and 2 on the tissues with contacts; a tissue with a division (generic ellipsoid) among the translated pairs.",
-    "C16": " Coordinate magnitudes include tokens with three-digit exponents (2.5e-120, 6e99, 3.75e-203); cell identifiers equal to, rotated against and unrelated to the list positions; a population of 65574 points / 131136 triangles in one file (BigVtkTrace). The path-based write_cell_data_file with its default arguments, on the cells as they are, must give a file that reads back with the same geometry (P_PathWriter).",
+    "C16": " Coordinate magnitudes include tokens with three-digit exponents (2.5e-120, 6e99, 3.75e-203); cell identifiers equal to, rotated against and unrelated to the list positions; a population of 65574 points / 131136 triangles in one file (BigVtkTrace). The path-based write_cell_data_file with its default arguments, on the cells as they are, must give a file that reads back with the same geometry (P_PathWriter); the same writer with compaction switched off, called before anything has compacted the cells (every node slot listed, faces referencing a non-contiguous subset of a cell's points), must read back as the same tissue too (P_NoRebaseWriter).",
     "C17": " Structured faults include point ids at the wrap boundaries of index arithmetic (2^31/m + d, 2^32/m + d). Start-ups on files with 3000 malformed cells at four threads.",
     "C18": " 'Govern the run': density / damping / time step through a replay of spec/Integrate's behaviours into the real integrator; bulk modulus, tensions, area-elasticity and bending moduli through the energy-gradient oracle of C02 on generic cells with different values per face type. The two parameters consumed before the first iteration (perform_initial_triangulation, min_edge_length) through the XML constructor of the real simulation_initializer: flag 0 / 1 x coarse / fine edge length on a two-cell file, validated against spec/Io/StartupTrace. Real solver runs of the same growing tissue with three values of min_edge_length must end with more nodes the smaller the value (StartupTrace.P_EdgeLengthGovernsTheRun); that no edge is longer than three minimum edge lengths after a pass that ended normally is checked as design drift only (the factor is the solver's choice). A sampling period equal to the time step (case kind eqstep of Io/Params: accepted, value intact).",
     "C19": " The identifier arrays inside the files (cell_id of the cell-data file, runs of face_cell_id of the face-data file) are extracted by the driver and compared by TissueTrace with the population alive when the pair was written. Durations that the accumulated time hits bit for bit (C19_StopsWhenTReached: no iteration starts once T is reached). Populations made of static / ECM cells only (from the start, and after the last mobile cell was removed): time still advances by dt per iteration.",
